@@ -41,7 +41,8 @@ func verifC13_response() {
 		key = "dGhlIHNhbXBsZSBub25jZQ==" // concrete key: SHA-1/base64 run for real, counterexamples replay natively
 	}
 	resp := &http.Response{StatusCode: vInt("status", 100, 599), Header: http.Header{}}
-	extFocus := vParam("extFocus", 0) == 1
+	accFocus := vParam("accFocus", 0) == 1
+	extFocus := vParam("extFocus", 0) == 1 || accFocus
 	if extFocus {
 		// everything but the extension header is a fixed valid response
 		resp.StatusCode = 101
@@ -57,6 +58,28 @@ func verifC13_response() {
 	acc := vSymValues("accept", 1)
 	if vParam("symKey", 1) == 0 && (extFocus || vChoose("rightAccept", 2) == 1) {
 		acc = []string{vRefAcceptKey(key)}
+	}
+	if accFocus {
+		// everything but the Accept value is a fixed valid response; the value is the right one or a near miss: another
+		// base64 spelling of the same digest (unused low bits of the last symbol set), unpadded, over-padded, upper-cased,
+		// given twice. Only the exact text base64(SHA-1(key + GUID)) matches the key (RFC 6455 4.1).
+		a := vRefAcceptKey(key)
+		switch vChoose("accVariant", 7) {
+		case 0:
+			acc = []string{a}
+		case 1:
+			acc = []string{a[:26] + string([]byte{a[26] + 1}) + "="}
+		case 2:
+			acc = []string{a[:26] + string([]byte{a[26] + 3}) + "="}
+		case 3:
+			acc = []string{a[:27]}
+		case 4:
+			acc = []string{a + "="}
+		case 5:
+			acc = []string{strings.ToUpper(a)}
+		case 6:
+			acc = []string{a + "x", a}
+		}
 	}
 	proto := vSymValues("proto", 1)
 	if extFocus {
